@@ -53,9 +53,9 @@ InitPws(e) == [k \in Kinds |-> IF k \in InitSet(e)
                                THEN e.init_pw[MinOf({j \in DOMAIN e.init_pw : e.init_pw[j].kind = k})].pw
                                ELSE ""]
 
-(* Messages are kept short on purpose: TLC wraps printed tuples longer than a line, and the
-   harness reads MISMATCH lines one by one.  <<class, code, kind>>; class "impl" = the library,
-   "gen" = the generator/projection side is inconsistent (tool error), "anchor" = the oracle. *)
+(* Messages are short codes <<class, code, kind>> (checks/c15.py adds the context); class "impl" =
+   the library, "gen" = the generator/projection side is inconsistent (tool error), "anchor" = the
+   oracle does not reproduce an Excel-written verifier (tool error). *)
 Bad(class, code, kind) == Mismatch(l, <<class, code, kind>>)
 
 (* a projection p verifies for the kinds `set` with passwords pws; returns TRUE or prints *)
@@ -126,14 +126,19 @@ JAnchor(e) ==
   ELSE IF D(e.alg, e.salt, e.spin, e.pw) # e.hash THEN Bad("anchor", "Anchor:excel", e.salt)
   ELSE TRUE
 
+(* events of a case are numbered (i); none may be missing: nsets holds the number of the last one *)
+SeqOK(e) == e.a \in {"Init", "Anchor", "Fatal"} \/ e.i = nsets + 1
+NextSeq(e) == IF e.a \in {"Anchor", "Fatal"} THEN nsets ELSE e.i
+
 Judge(e) ==
+  IF ~SeqOK(e) THEN Bad("gen", "seq", e.a) ELSE
   CASE e.a = "Init"   -> JInit(e)
     [] e.a = "Legacy" -> JLegacy(e)
     [] e.a = "Set"    -> JSet(e)
     [] e.a = "Save"   -> JSave(e)
     [] e.a = "Load"   -> JLoad(e)
     [] e.a = "Anchor" -> JAnchor(e)
-    [] OTHER -> Bad("impl", "died", e.outcome)       \* the driver process died or hung
+    [] OTHER -> Bad("impl", "died", e.outcome)       \* the driver process died or hung (a = "Fatal")
 
 (* the specification state follows the observation, so that the rest of the trace is still checked *)
 Update(e) ==
@@ -158,6 +163,7 @@ TraceInit == /\ l = 1 /\ prot = [k \in Kinds |-> Unset] /\ isSet = {} /\ pwOf = 
              /\ file = NoFile /\ used = <<>> /\ pc = "idle" /\ job = NoJob /\ nsets = 0 /\ hist = <<>>
 TraceNext == /\ l <= Len(Rec) /\ l' = l + 1
              /\ Judge(Ev) /\ Update(Ev)
-             /\ UNCHANGED <<pc, job, nsets, hist>>
+             /\ nsets' = NextSeq(Ev)
+             /\ UNCHANGED <<pc, job, hist>>
 TraceSpec == TraceInit /\ [][TraceNext]_tvars
 =============================================================================
